@@ -56,6 +56,12 @@ type Env struct {
 	// second Mux: the reference for what a WebSocket client observes.
 	LocalMux   *larking.Mux
 	LocalFront *wire.Server
+	// Small is a second Mux with the back-end registered through
+	// RegisterConn and MaxReceiveMessageSize = ChunkLimit: HttpBody uploads
+	// are cut into messages of that size.
+	SmallMux   *larking.Mux
+	SmallFront *wire.Server
+	Uploads    *uploadStore
 	seq        atomic.Int64
 	// WantDump: capture larking's goroutines shortly before a proxied call
 	// hits the deadline (set while hangs are re-executed and in replays).
@@ -72,6 +78,9 @@ func (e *Env) Close() {
 	if e.LocalFront != nil {
 		e.LocalFront.Close()
 	}
+	if e.SmallFront != nil {
+		e.SmallFront.Close()
+	}
 	if e.Back != nil {
 		e.Back.Close()
 	}
@@ -84,8 +93,8 @@ func NewEnv() (*Env, error) {
 	if err != nil {
 		return nil, err
 	}
-	e := &Env{Reg: NewRegistry()}
-	impl := &Scripted{Reg: e.Reg, Tag: "be"}
+	e := &Env{Reg: NewRegistry(), Uploads: &uploadStore{}}
+	impl := &Scripted{Reg: e.Reg, Tag: "be", Uploads: e.Uploads}
 	if e.Back, err = be.Start("be", true, be.Svc{SD: sd, Impl: impl}); err != nil {
 		return nil, err
 	}
@@ -115,6 +124,19 @@ func NewEnv() (*Env, error) {
 	e.HC = &http.Client{Transport: &http.Transport{DisableCompression: true, MaxIdleConnsPerHost: 64, MaxConnsPerHost: 0}}
 	e.H2 = wire.H2CClient()
 	e.IP = &http.Client{Transport: inproc{e.Mux}}
+
+	if e.SmallMux, err = larking.NewMux(larking.MaxReceiveMessageSizeOption(ChunkLimit)); err != nil {
+		e.Close()
+		return nil, err
+	}
+	if pi := mon.Catch(func() { rerr = e.SmallMux.RegisterConn(ctx, e.Back.CC) }); pi != nil || rerr != nil {
+		e.Close()
+		return nil, fmt.Errorf("RegisterConn (small mux): %v %v", pi, rerr)
+	}
+	if e.SmallFront, err = wire.StartLarking(e.SmallMux, nil); err != nil {
+		e.Close()
+		return nil, err
+	}
 
 	reg, err := vschema.Registry(sd.ParentFile())
 	if err != nil {
@@ -375,6 +397,9 @@ func nClass(s *Script) string {
 	if s.Gzip {
 		c += ",gzip"
 	}
+	if s.Enc != "" {
+		c += ",enc=" + s.Enc
+	}
 	return c
 }
 
@@ -565,6 +590,9 @@ func setup(r *mon.Run) {
 		"compared with the direct call, the close code and reason with the same script on a locally registered handler. " +
 		"Message size classes: empty (zero bytes on the wire) and tiny messages at every position (only / first / middle / last) in both directions, crossed with compression " +
 		"(gRPC-web also with mixed per-message flags on a gzip stream). " +
+		"google.api.HttpBody transfers through a second proxied Mux with a 100-byte chunk limit (and the default one): uploads of 1-450 bytes with Content-Length, chunked and h2c framing, " +
+		"downloads over sizes x message sizes; oracle = byte conservation at the back-end / client. " +
+		"Compression values: absent, gzip, identity announced explicitly (gRPC, gRPC-web). " +
 		"Each script runs twice (direct / through larking); distinct = front x shape x plan family x message count x outcome x half-close-seen x metadata class."
 	r.Floor = 40
 	r.Assume("grpc-go client/server (direct run) define the reference behaviour of a call script")
@@ -762,6 +790,7 @@ func RunC10(r *mon.Run) {
 			report(r, res)
 		}
 	}
+	runBodyCases(r, e)
 	finish(r, e)
 }
 
@@ -769,7 +798,19 @@ func RunC10(r *mon.Run) {
 func Replay(r *mon.Run, raw json.RawMessage) {
 	setup(r)
 	var doc struct {
-		Script *Script `json:"script"`
+		Script *Script   `json:"script"`
+		Body   *BodyCase `json:"body_case"`
+	}
+	if err := json.Unmarshal(raw, &doc); err == nil && doc.Body != nil {
+		e, err := NewEnv()
+		if err != nil {
+			r.Inconclusive("cannot start back-end / front: " + err.Error())
+			return
+		}
+		defer e.Close()
+		reportBody(r, e, *doc.Body, "replay1")
+		finish(r, e)
+		return
 	}
 	if err := json.Unmarshal(raw, &doc); err != nil || doc.Script == nil {
 		var s Script
